@@ -266,6 +266,8 @@ func randomPeer(rnd *common.Rand, budget int) func(v *View) (Item, bool) {
 			return Item{Kind: 'H', OK: false}, true
 		case odd < 10:
 			return Item{Kind: 'H', OK: true}, true
+		case odd < 12:
+			return Item{Kind: 'H', NS: 1}, true
 		}
 		if wantHdr {
 			return it, true
